@@ -50,7 +50,8 @@ PROPS["C09"] = {
     "pkg": "c09", "level": "exploration",
     "rule": ("rapid state machine over one nsqd.DiskQueue on tmpfs: put(m) with |m| in {0, tiny, around maxBytesPerFile-4, up to 3 segments; 1 in 60: 64 KiB .. 3 MiB}, "
              "get (or, when the model is empty, a negative check that nothing arrives), close+reopen; maxBytesPerFile in {1..1000}, "
-             "syncEvery in {1..8, never}; oracle = slice model: every get returns the model head byte-for-byte, Depth() equals the model "
+             "syncEvery in {1..8, never}; backlog (own sub-check): segments of 100 KB - 1 MB, thousands of small messages of a fixed or varied size, a consumer that lags by "
+             "up to hundreds of KB, clean reopen at drawn points, full drain at the end. oracle = slice model: every get returns the model head byte-for-byte, Depth() equals the model "
              "length after every put / completed get / reopen, final reopen drains to exactly the model and then nothing. Non-trivial: "
              "history with a reopen while messages are pending, a reopen directly after a put that rolled a segment, or a message larger "
              "than a segment. Distinct = hash of the operation history (lengths included)."),
@@ -58,8 +59,8 @@ PROPS["C09"] = {
     "level_note": "syncTimeout fixed at 1h so syncs are count-driven; 'at rest' is observed via the verif-tagged delivered-done callback (the queue advances its read position asynchronously after handing a message over).",
     "technique": "property-based testing (rapid state machine) against a reference FIFO model",
     "assumptions": ["tmpfs behaves like the spool filesystem for create/write/rename/remove", "single consumer"],
-    "quick": [R("TestPropFIFO", 2500, steps=40)],
-    "thorough": [R("TestPropFIFO", 30000, shards=16, steps=60, timeout=2400)],
+    "quick": [R("TestPropFIFO", 2500, steps=40), R("TestPropBacklog", 60)],
+    "thorough": [R("TestPropFIFO", 30000, shards=12, steps=60, timeout=2400), R("TestPropBacklog", 1500, shards=4, timeout=2400)],
 }
 
 PROPS["C08"] = {
